@@ -2,6 +2,9 @@ package frac
 
 import (
 	"context"
+	"runtime"
+	"sync"
+	"time"
 
 	"github.com/ozontech/seq-db/consts"
 	"github.com/ozontech/seq-db/frac/processor"
@@ -245,5 +248,63 @@ func VerifActiveAgg() {
 		}
 	}
 	rt.Assert(agg.NotExists == want[len(groups)], "documents without the field are counted as not existing")
+	rt.Reach("end")
+}
+
+// VerifConcurrentGetLIDs: two searches merge the same token's queued posting list at the same
+// time (a context switch is explored before every lock operation): both see every indexed document.
+func VerifConcurrentGetLIDs() {
+	for r := 0; r < rt.Repeat(); r++ {
+		vConcurrentGetLIDs()
+	}
+}
+
+// vLetRun lets the goroutines started so far run until they block.
+func vLetRun() {
+	if rt.Symbolic() {
+		runtime.Gosched()
+	} else {
+		time.Sleep(20 * time.Millisecond)
+	}
+}
+
+func vConcurrentGetLIDs() {
+	f := &Active{
+		Config:        &Config{SkipSortDocs: true},
+		TokenList:     NewActiveTokenList(1),
+		DocsPositions: NewSyncDocsPositions(),
+		MIDs:          NewIDs(),
+		RIDs:          NewIDs(),
+		DocBlocks:     NewIDs(),
+		info:          &Info{Path: "frac", From: ^seq.MID(0), To: 0, BinaryDataVer: BinaryDataV1},
+	}
+	f.MIDs.Append(systemMID)
+	f.RIDs.Append(systemRID)
+	c := newMetaDataCollector()
+	ids := []seq.ID{{MID: 30, RID: 1}, {MID: 20, RID: 2}}
+	var metas []MetaData
+	for _, id := range ids {
+		metas = append(metas, MetaData{ID: id, Size: 2, Tokens: []MetaToken{{Key: []byte(seq.TokenAll), Value: []byte{}}}})
+	}
+	vASIndexBulk(f, c, metas, 0)
+	all := f.TokenList.GetAllTokenLIDs()
+	var wg sync.WaitGroup
+	res := make([]int, 2)
+	// the next bulk is being appended: AppendIDs holds the id locks for a while, so a search that needs
+	// the ids waits in the middle of its merge - the window in which a second search arrives
+	f.MIDs.mu.Lock()
+	for g := 0; g < 2; g++ {
+		wg.Add(1)
+		go func() {
+			defer wg.Done()
+			res[g] = len(all.GetLIDs(f.MIDs, f.RIDs))
+		}()
+		vLetRun()
+	}
+	f.MIDs.mu.Unlock()
+	wg.Wait()
+	for g := 0; g < 2; g++ {
+		rt.Assert(res[g] == len(ids), "a search that runs while another one merges the posting list still sees every indexed document")
+	}
 	rt.Reach("end")
 }
